@@ -277,49 +277,46 @@ Proof.
 Qed.
 Print Assumptions C05_int_exact_ex.
 
-(* Converted nodes (a NUMBER token read as a float, then _convert_to_int): _og_value stays the float.
-   The full statement is FALSE of the current code: *)
-Theorem C05_conv_int_exact_refuted :
-  exists t pad n s r,
-    render KConv (TText t) pad false (VInt n) = Ok s /\
-    written_number s = Some r /\ r <> (n <? 0, Z.abs n, 0) /\ s = t ++ " ".
-Proof. exact conv_node_exact_refuted. Qed.
-Print Assumptions C05_conv_int_exact_refuted.
-
-(* ... what does hold: the integer is written digit for digit unless the new integer equals, as Python
-   compares an int with a float, the float the token was first read as (then the old token is kept) *)
-Theorem C05_conv_int_cases : forall tok pad np nd n s,
+(* Converted nodes (a NUMBER token read as a float, then _convert_to_int; since da649a9 the converted integer
+   is also the value later assignments are compared with).  Full strength: the integer is written digit for
+   digit, or it is the integer the token itself was converted to and the token is kept verbatim ('5.0'). *)
+Theorem C05_conv_int_exact : forall tok pad np nd n s,
   make_node KConv tok pad np = Ok nd ->
   followed_ok (pad_nodes (set_value nd (VInt n))) ->
   format (set_value nd (VInt n)) = Ok s ->
   written_number s = Some (n <? 0, Z.abs n, 0) \/
-  exists t xo, tok = TText t /\ fortran_float t = Ok xo /\ py_eq (VInt n) (VFlt xo) = true /\
-               s = t ++ pad_text (pad_nodes (set_value nd (VInt n))).
-Proof. exact conv_node_cases. Qed.
-Print Assumptions C05_conv_int_cases.
+  exists t, tok = TText t /\ conv_int t = Ok n /\
+            s = t ++ pad_text (pad_nodes (set_value nd (VInt n))).
+Proof. exact conv_node_exact_full. Qed.
+Print Assumptions C05_conv_int_exact.
 
-(* ... and under the side condition that excludes the defect — the token's float is exactly the token's
-   integer, true of every integer below 2^53 — the old token is only kept for its own integer *)
-Theorem C05_conv_int_exact_partial : forall t pad np nd n s xo i,
+(* ... and a token spelled as an integer reads as the integer that was set in both cases *)
+Theorem C05_conv_int_exact_plain : forall t pad np nd n s,
   make_node KConv (TText t) pad np = Ok nd ->
-  fortran_float t = Ok xo -> conv_int t = Ok i -> py_eq (VInt i) (VFlt xo) = true ->
+  (exists i, py_int_of_string t = Ok i) ->
   followed_ok (pad_nodes (set_value nd (VInt n))) ->
   format (set_value nd (VInt n)) = Ok s ->
-  written_number s = Some (n <? 0, Z.abs n, 0) \/
-  (n = i /\ s = t ++ pad_text (pad_nodes (set_value nd (VInt n)))).
-Proof. exact conv_node_exact_partial. Qed.
-Print Assumptions C05_conv_int_exact_partial.
+  exists neg M, written_number s = Some (neg, M, 0) /\ (if neg then - M else M) = n.
+Proof. exact conv_node_exact_plain. Qed.
+Print Assumptions C05_conv_int_exact_plain.
 
-Example C05_conv_int_exact_partial_ex :    (* '0012.0' converted, <- 7 *)
+Example C05_conv_int_exact_ex :            (* '0012.0' converted: <- 7 is re-written, <- 12 keeps the token *)
   exists nd, make_node KConv (TText "0012.0") (Some [PStr " "]) false = Ok nd /\
-    fortran_float "0012.0" = Ok (mkD false 6755399441055744 (-49)) /\ conv_int "0012.0" = Ok 12 /\
-    py_eq (VInt 12) (VFlt (mkD false 6755399441055744 (-49))) = true /\
-    format (set_value nd (VInt 7)) = Ok "000007 ".
+    conv_int "0012.0" = Ok 12 /\
+    format (set_value nd (VInt 7)) = Ok "000007 " /\
+    format (set_value nd (VInt 12)) = Ok "0012.0 ".
 Proof.
   eexists. split; [vm_compute; reflexivity|]. split; [vm_compute; reflexivity|].
-  split; [vm_compute; reflexivity|]. split; [vm_compute; reflexivity|]. vm_compute. reflexivity.
+  split; vm_compute; reflexivity.
 Qed.
-Print Assumptions C05_conv_int_exact_partial_ex.
+Print Assumptions C05_conv_int_exact_ex.
+
+(* the witness of the defect repaired by da649a9 (the float _og_value made 10**18 look unchanged): now exact *)
+Example C05_conv_int_exact_ex_repaired :
+  render KConv (TText "1000000000000000003") (Some [PStr " "]) false (VInt 1000000000000000000)
+  = Ok "1000000000000000000 ".
+Proof. vm_compute. reflexivity. Qed.
+Print Assumptions C05_conv_int_exact_ex_repaired.
 
 (* ------------------------------------------------------------------------------------------------
    7. math.isclose as modelled is symmetric (used for the unchanged short cut: isclose(new, old)). *)
